@@ -50,6 +50,9 @@ pub struct Callback {
 	/// interleaved output; empty if the callback panicked
 	pub out: Vec<f32>,
 	pub guard: Guarded,
+	/// how many samples of this callback the renderer replaced by silence because the mixer had
+	/// produced NaN for them (`kira::verif::nan_scrubbed`, read before and after on this thread)
+	pub scrubbed: u64,
 }
 
 impl Callback {
@@ -64,11 +67,12 @@ impl VBackend {
 	pub fn callback(&mut self, frames: usize, channels: u16) -> Callback {
 		let mut out = vec![SENTINEL; frames * channels as usize];
 		let renderer = self.renderer.as_mut().expect("renderer");
+		let before = kira::verif::nan_scrubbed();
 		let (_, guard) = monitor::as_callback(|| {
 			renderer.on_start_processing();
 			renderer.process(&mut out, channels);
 		});
-		Callback { out, guard }
+		Callback { out, guard, scrubbed: kira::verif::nan_scrubbed() - before }
 	}
 
 	/// The first half of a device callback (`on_start_processing`): together with `end_callback`
@@ -84,8 +88,9 @@ impl VBackend {
 	pub fn end_callback(&mut self, frames: usize, channels: u16) -> Callback {
 		let mut out = vec![SENTINEL; frames * channels as usize];
 		let renderer = self.renderer.as_mut().expect("renderer");
+		let before = kira::verif::nan_scrubbed();
 		let (_, guard) = monitor::as_callback(|| renderer.process(&mut out, channels));
-		Callback { out, guard }
+		Callback { out, guard, scrubbed: kira::verif::nan_scrubbed() - before }
 	}
 
 	/// The device changed its sample rate (cpal calls this between callbacks, from its stream
